@@ -152,8 +152,14 @@ func (sc *Scheduler) Schedule(ctx context.Context, g *ExecutionGraph, done chan 
 					sc.lastError = err
 					node.setErr(err)
 				}
+				// released is set once the node was handed back for a retry: the
+				// next attempt may be set up from then on, so this worker must not
+				// touch the node's files any more.
+				released := false
 				defer func() {
-					_ = sc.teardownNode(node)
+					if !released {
+						_ = sc.teardownNode(node)
+					}
 				}()
 
 				executed := false
@@ -188,6 +194,10 @@ func (sc *Scheduler) Schedule(ctx context.Context, g *ExecutionGraph, done chan 
 							)
 							time.Sleep(node.data.Step.RetryPolicy.Interval)
 							node.setRetriedAt(time.Now())
+							// flush and close this attempt's files before the node can be
+							// launched again
+							_ = sc.teardownNode(node)
+							released = true
 							node.setStatus(NodeStatusNone)
 						default:
 							// finish the node
@@ -222,9 +232,11 @@ func (sc *Scheduler) Schedule(ctx context.Context, g *ExecutionGraph, done chan 
 						node.setStatus(NodeStatusCancel)
 					}
 				}
-				if err := sc.teardownNode(node); err != nil {
-					sc.setLastError(err)
-					node.setStatus(NodeStatusError)
+				if !released {
+					if err := sc.teardownNode(node); err != nil {
+						sc.setLastError(err)
+						node.setStatus(NodeStatusError)
+					}
 				}
 				if done != nil {
 					done <- node
